@@ -49,7 +49,7 @@ type snap struct {
 }
 
 func runC16(c *mon.Ctx) {
-	n := c.Pick(200, 3000)
+	n := c.Pick(400, 4000)
 	for i := int64(0); i < n; i++ {
 		if !c.Mine("alias", i) {
 			continue
